@@ -28,27 +28,27 @@ type Val struct {
 	Zero bool   `json:"zero,omitempty"` // time: the zero time.Time
 	Sec2 int64  `json:"sec2,omitempty"` // timediff: start
 	Nse2 int64  `json:"nsec2,omitempty"`
-	Nil  bool   `json:"nil,omitempty"` // nil stringer / nil []byte / nil slice / nil marshaler / nil pointer (Ptr)
-	Ptr  bool   `json:"ptr,omitempty"` // Fields only: pass *T instead of T
-	EK   string `json:"ek,omitempty"`  // error kind: plain | nil | typednil | objerr
+	Nil  bool   `json:"nil,omitempty"`  // nil stringer / nil []byte / nil slice / nil marshaler / nil pointer (Ptr)
+	Ptr  bool   `json:"ptr,omitempty"`  // Fields only: pass *T instead of T
+	EK   string `json:"ek,omitempty"`   // error kind: plain | nil | typednil | objerr
 	Bits int    `json:"bits,omitempty"` // ipnet: prefix length
-	L    []Val  `json:"l,omitempty"`   // slice / array elements
-	Ops  []Op   `json:"ops,omitempty"` // dict / obj / embed / fields / func sub-fields
-	If   *Iface `json:"if,omitempty"`  // interface value
+	L    []Val  `json:"l,omitempty"`    // slice / array elements
+	Ops  []Op   `json:"ops,omitempty"`  // dict / obj / embed / fields / func sub-fields
+	If   *Iface `json:"if,omitempty"`   // interface value
 }
 
 // Iface describes a value passed through Interface/Any (or the default arm
 // of Fields). Kinds: nil str int float bool list map struct rawmsg unmarshalable
 // objmarshaler (Ops) ptrnil.
 type Iface struct {
-	K   string  `json:"k"`
-	S   []byte  `json:"s,omitempty"`
-	I   int64   `json:"i,omitempty"`
-	F   uint64  `json:"f,omitempty"`
-	B   bool    `json:"b,omitempty"`
-	L   []Iface `json:"l,omitempty"`
+	K   string   `json:"k"`
+	S   []byte   `json:"s,omitempty"`
+	I   int64    `json:"i,omitempty"`
+	F   uint64   `json:"f,omitempty"`
+	B   bool     `json:"b,omitempty"`
+	L   []Iface  `json:"l,omitempty"`
 	MK  [][]byte `json:"mk,omitempty"` // map keys (parallel to L)
-	Ops []Op    `json:"ops,omitempty"`
+	Ops []Op     `json:"ops,omitempty"`
 }
 
 // Op is one field-adding call: key plus value (key unused for embed, fields*,
@@ -74,9 +74,9 @@ type Settings struct {
 	TimeFormat   string  `json:"time_format"`            // "RFC3339" default; "" unix; UNIXMS; UNIXMICRO; UNIXNANO; other = layout
 	DurUnit      int64   `json:"dur_unit"`               // 0 = default (ms)
 	DurInt       bool    `json:"dur_int,omitempty"`
-	FloatPrec    int     `json:"float_prec"`             // -1 default
-	ErrMarshal   string  `json:"err_marshal,omitempty"`  // "" identity | string | obj | othererr | nil | struct
-	StackMarshal string  `json:"stack_marshal,omitempty"` // "" unset | nil | string | error | obj | frames
+	FloatPrec    int     `json:"float_prec"`              // -1 default
+	ErrMarshal   string  `json:"err_marshal,omitempty"`   // "" identity | string | obj | othererr | nil | struct
+	StackMarshal string  `json:"stack_marshal,omitempty"` // "" unset | nil | string | error | obj | frames | nilerr (typed-nil error)
 	IfaceMarshal string  `json:"iface_marshal,omitempty"` // "" default | stdjson | wrap
 	ClockSec     int64   `json:"clock_sec,omitempty"`
 	ClockNsec    int64   `json:"clock_nsec,omitempty"`
